@@ -36,7 +36,12 @@ def main(have):
                 pass
         elif how.get(name) == "broken":
             sys.modules.pop(name, None)
-            broken_dir = broken_dir or tempfile.mkdtemp(prefix="c19-broken-")
+            if broken_dir is None:
+                import atexit
+                import shutil
+
+                broken_dir = tempfile.mkdtemp(prefix="c19-broken-")
+                atexit.register(shutil.rmtree, broken_dir, True)  # nothing is left behind under /tmp
             with open(os.path.join(broken_dir, name + ".py"), "w") as fh:
                 fh.write("raise ImportError('lib%s.so.1: cannot open shared object file: No such file or directory')\n" % name)
             sys.path.insert(0, broken_dir)
